@@ -1757,7 +1757,7 @@ class Engine:
             results = []
             for s1, it in self.eval(fr, gen.iter, st):
                 seq = self._concrete_seq(it)
-                if seq is None or len(seq) > 8:
+                if seq is None or len(seq) > 16:
                     raise _NotConcrete()
                 cur = [(s1, acc)]
                 for item in seq:
@@ -2061,11 +2061,11 @@ class Engine:
                     out = []
                     for rs, rv in sub.returns:
                         rs2 = rs.copy()
-                        rs2.env = dict(s.env)
+                        rs2.env = self._caller_env(s, rs)
                         out.append((rs2, rv))
                     for rs, node, exc in sub.raises:
                         rs2 = rs.copy()
-                        rs2.env = dict(s.env)
+                        rs2.env = self._caller_env(s, rs)
                         self._raise_propagate(fr, node, exc, rs2)
                     return out
             self._mark_opaque(fr)
